@@ -5,6 +5,7 @@ package main
 import (
 	"fmt"
 	"go/token"
+	"strings"
 
 	"golang.org/x/tools/go/ssa"
 )
@@ -19,6 +20,7 @@ func init() {
 			"R2": "predicate definitions (truth tables): ShouldPause, auto-open, alive",
 			"R3": "handler always scheduled: continue step returns delay(handler); delay runs the handler unless cancelled",
 			"R4": "no silent drop in the open-game callback unless excluded by the set-up guard (participants provenance)",
+			"R6": "the open-game gate is constructed with a positive time limit (constant, or guarded > 0), so the 'or the open-game timeout elapses' arm exists",
 			"R5": "the participants handed to set-up are the whole list of settled participants that still have chips, passed settle → continue → handler unchanged",
 		},
 		Assumptions: []string{"timebank runs the task; syncsaga fires the completion (C09)"},
@@ -458,6 +460,28 @@ func checkC08(c *Ctx) {
 			}
 		}
 		c.Check(okChain, "R5", "set-up-participants-chain", p.Pos(handler.Pos()), "participants = settled participants with chips (settle → continue → handler)", "who the next hand waits for: "+d)
+	}
+
+	// ---------------- R6 the open-game gate is built with a time limit
+	{
+		n := 0
+		for _, ss := range p.FieldStores("OpenGameOption", "Timeout") {
+			if !p.IsRepoFunc(ss.Fn) || strings.HasSuffix(ss.Fn.Pkg.Pkg.Path(), "/open_game_manager") {
+				continue
+			}
+			n++
+			v, isC := ss.Val.ConstInt()
+			ok := isC && v > 0
+			if !isC {
+				// a computed limit must be proved positive where it is used
+				ok = cmpHolds(p.Guards(ss.Instr), func(l, r *Sym, op token.Token) bool {
+					z, isZ := r.ConstInt()
+					return isZ && l.Strip().String() == ss.Val.Strip().String() && ((op == token.GTR && z >= 0) || (op == token.GEQ && z >= 1))
+				})
+			}
+			c.Check(ok, "R6", "gate-timeout-positive:"+FuncName(ss.Fn), p.InstrPos(ss.Instr), "open-game timeout is a positive constant or proved > 0", "the open-game gate is built with time limit "+ss.Val.String()+", which can be zero (= wait forever): a survivor who never signals wedges the table in standby")
+		}
+		c.Min("R6", "open-game gate constructions in the engine", n, 1)
 	}
 
 	// ---------------- R4 open-game callback
